@@ -47,19 +47,51 @@ func GuardsOf(i ssa.Instruction) []Guard {
 	return GuardsOfBlock(i.Block())
 }
 
+// GuardsOfBlock: the conditions that hold whenever b runs: those of the branches dominating b, and — when b runs only under
+// a boolean flag — the conditions common to every point at which that flag becomes true (they held when it was set; SSA
+// values do not change afterwards).
 func GuardsOfBlock(b *ssa.BasicBlock) []Guard {
-	var out []Guard
-	for d := b; d != nil; d = d.Idom() {
-		// d's idom may branch into d
-		id := d.Idom()
-		if id == nil {
-			break
-		}
-		// find the If whose edge leads (exclusively) to a block dominating b
-		// walk all dominators 'id' with If terminators
-		_ = id
+	out := plainGuardsOfBlock(b)
+	if len(b.Instrs) == 0 {
+		return out
 	}
-	// simpler: for every dominator D of b with If terminator, check which successor edge dominates b
+	for _, sites := range flagGuards(b.Instrs[0]) {
+		var common []Guard
+		for k, s := range sites {
+			gs := plainGuardsOfBlock(s.Block())
+			if k == 0 {
+				common = gs
+				continue
+			}
+			var keep []Guard
+			for _, c := range common {
+				for _, g := range gs {
+					if g.Cond == c.Cond && g.Pol == c.Pol {
+						keep = append(keep, c)
+						break
+					}
+				}
+			}
+			common = keep
+		}
+		for _, c := range common {
+			dup := false
+			for _, o := range out {
+				if o.Cond == c.Cond && o.Pol == c.Pol {
+					dup = true
+				}
+			}
+			if !dup {
+				out = append(out, c)
+			}
+		}
+	}
+	return out
+}
+
+func plainGuardsOfBlock(b *ssa.BasicBlock) []Guard {
+	var out []Guard
+	// for every dominator D of b with If terminator, check which successor edge dominates b
 	for d := b.Idom(); d != nil; d = d.Idom() {
 		if len(d.Instrs) == 0 {
 			continue
@@ -633,4 +665,242 @@ func MustPassThroughPS(fn *ssa.Function, from ssa.Instruction, P func(ssa.Instru
 		walk(from.Block(), instrIndex(from)+1, map[string]bool{}, 0)
 	}
 	return found
+}
+
+// ---------- flag-mediated dominance ----------
+//
+// A refactor often replaces "the guarded statements sit inside the branch" by "the branch sets a boolean, later code tests
+// it" (`reached = true; break` … `if !reached { return }`, or a field such as att.Observed). Plain dominance loses the
+// connection; the helpers below restore it: if an instruction runs only when a flag is true, then some instruction that
+// made the flag true ran before it.
+
+var flagEngine *Engine // set by Load; needed for the call sites of a function whose pointer parameter carries the flag
+
+// trueSites returns the instructions at which the boolean value v can become true (the points after which it holds), or
+// ok=false when v is not a flag this analysis understands (then nothing is concluded).
+func trueSites(v ssa.Value, seen map[ssa.Value]bool) (sites []ssa.Instruction, ok bool) {
+	if seen[v] {
+		return nil, true
+	}
+	seen[v] = true
+	switch x := v.(type) {
+	case *ssa.Const:
+		if x.Value != nil && x.Value.Kind() == constant.Bool && !constant.BoolVal(x.Value) {
+			return nil, true
+		}
+		return nil, false
+	case *ssa.Phi:
+		for i, ed := range x.Edges {
+			if c, isC := ed.(*ssa.Const); isC && c.Value != nil && c.Value.Kind() == constant.Bool {
+				if constant.BoolVal(c.Value) {
+					p := x.Block().Preds[i]
+					sites = append(sites, p.Instrs[len(p.Instrs)-1])
+				}
+				continue
+			}
+			s, k := trueSites(ed, seen)
+			if !k {
+				return nil, false
+			}
+			sites = append(sites, s...)
+		}
+		return sites, true
+	case *ssa.UnOp:
+		if x.Op != token.MUL {
+			return nil, false
+		}
+		switch a := x.X.(type) {
+		case *ssa.Alloc:
+			// a local bool kept in memory: every use is a load or a store of a constant / another flag
+			for _, ref := range *a.Referrers() {
+				switch u := ref.(type) {
+				case *ssa.UnOp, *ssa.DebugRef:
+				case *ssa.Store:
+					if u.Addr != ssa.Value(a) {
+						return nil, false
+					}
+					if c, isC := u.Val.(*ssa.Const); isC && c.Value != nil && c.Value.Kind() == constant.Bool {
+						if constant.BoolVal(c.Value) {
+							sites = append(sites, u)
+						}
+						continue
+					}
+					return nil, false
+				default:
+					return nil, false
+				}
+			}
+			return sites, true
+		case *ssa.FieldAddr:
+			// a bool field of a record reached through a pointer parameter: false at every call site of the function
+			// (guard `!arg.field` there), true only by stores of the constant in this function, and not written by callees
+			par, isPar := a.X.(*ssa.Parameter)
+			fn := x.Parent()
+			if !isPar || fn == nil || flagEngine == nil {
+				return nil, false
+			}
+			pidx := -1
+			for i, p := range fn.Params {
+				if p == par {
+					pidx = i
+				}
+			}
+			st := fieldStructOf(a)
+			if pidx < 0 || st == nil {
+				return nil, false
+			}
+			e := flagEngine
+			bad := false
+			allInstrs(fn, func(i ssa.Instruction) {
+				s, isS := i.(*ssa.Store)
+				if !isS {
+					return
+				}
+				fa, isFA := s.Addr.(*ssa.FieldAddr)
+				if !isFA || fa.Field != a.Field || fieldStructOf(fa) != st {
+					return
+				}
+				if c, isC := s.Val.(*ssa.Const); isC && c.Value != nil && c.Value.Kind() == constant.Bool && fa.X == a.X {
+					if constant.BoolVal(c.Value) {
+						sites = append(sites, s)
+					}
+					return
+				}
+				bad = true
+			})
+			if bad {
+				return nil, false
+			}
+			// callees that are handed the record must not write the field (followed two levels down the argument)
+			var handed func(f *ssa.Function, v ssa.Value, depth int)
+			handed = func(f *ssa.Function, v ssa.Value, depth int) {
+				allCalls(f, func(c ssa.CallInstruction) {
+					for ai, arg := range c.Common().Args {
+						if arg != v {
+							continue
+						}
+						for _, callee := range e.calleesOf(c) {
+							if callee.Blocks == nil {
+								continue
+							}
+							allInstrs(callee, func(i ssa.Instruction) {
+								if s, isS := i.(*ssa.Store); isS {
+									if fa, isFA := s.Addr.(*ssa.FieldAddr); isFA && fa.Field == a.Field && fieldStructOf(fa) == st {
+										bad = true
+									}
+								}
+							})
+							if depth < 2 && ai < len(callee.Params) {
+								handed(callee, callee.Params[ai], depth+1)
+							}
+						}
+					}
+				})
+			}
+			handed(fn, a.X, 0)
+			if bad {
+				return nil, false
+			}
+			css := e.CallSites(fn)
+			if len(css) == 0 {
+				return nil, false
+			}
+			for _, cs := range css {
+				args := cs.Call.Common().Args
+				if cs.Call.Common().IsInvoke() || pidx >= len(args) {
+					return nil, false
+				}
+				arg := args[pidx]
+				okSite := false
+				for _, g := range GuardsOf(cs.Call) {
+					c, pol := g.Cond, g.Pol
+					for {
+						u, isU := c.(*ssa.UnOp)
+						if !isU || u.Op != token.NOT {
+							break
+						}
+						c, pol = u.X, !pol
+					}
+					if ld, isL := c.(*ssa.UnOp); isL && ld.Op == token.MUL && !pol {
+						if fa, isFA := ld.X.(*ssa.FieldAddr); isFA && fa.Field == a.Field && fa.X == arg {
+							okSite = true
+						}
+					}
+				}
+				if !okSite {
+					return nil, false
+				}
+			}
+			return sites, true
+		}
+	}
+	return nil, false
+}
+
+func fieldStructOf(fa *ssa.FieldAddr) *types.Struct {
+	t := fa.X.Type()
+	if p, ok := t.Underlying().(*types.Pointer); ok {
+		t = p.Elem()
+	}
+	st, _ := t.Underlying().(*types.Struct)
+	return st
+}
+
+// flagGuards: the flags that must be true for instruction i to run, each with the instructions that can make it true.
+func flagGuards(i ssa.Instruction) [][]ssa.Instruction {
+	var out [][]ssa.Instruction
+	for _, g := range plainGuardsOfBlock(i.Block()) {
+		c, pol := g.Cond, g.Pol
+		for {
+			u, isU := c.(*ssa.UnOp)
+			if !isU || u.Op != token.NOT {
+				break
+			}
+			c, pol = u.X, !pol
+		}
+		if !pol {
+			continue
+		}
+		if b, isB := c.Type().Underlying().(*types.Basic); !isB || b.Kind() != types.Bool {
+			continue
+		}
+		switch c.(type) {
+		case *ssa.Phi, *ssa.UnOp:
+		default:
+			continue
+		}
+		sites, ok := trueSites(c, map[ssa.Value]bool{})
+		if ok && len(sites) > 0 {
+			out = append(out, sites)
+		}
+	}
+	return out
+}
+
+// DominatesF: a runs before b on every path — by dominance, or because b runs only under a flag that becomes true only
+// after a.
+func DominatesF(a, b ssa.Instruction) bool {
+	return dominatesF(a, b, 0)
+}
+
+func dominatesF(a, b ssa.Instruction, depth int) bool {
+	if Dominates(a, b) {
+		return true
+	}
+	if depth > 2 || a.Parent() != b.Parent() {
+		return false
+	}
+	for _, sites := range flagGuards(b) {
+		all := true
+		for _, s := range sites {
+			if s != a && !dominatesF(a, s, depth+1) {
+				all = false
+				break
+			}
+		}
+		if all {
+			return true
+		}
+	}
+	return false
 }
